@@ -256,7 +256,7 @@ func (vc *VC) heapGet(st *State, comp string, sort string) string {
 	}
 	vc.compSort[comp] = sort
 	ep := st.epoch
-	if strings.HasPrefix(comp, "ghost:") || strings.HasPrefix(comp, "local:") {
+	if strings.HasPrefix(comp, "ghost:") || strings.HasPrefix(comp, "local:") || vc.immutableComp(comp) {
 		ep = 0 // ghost components and cells of closure-captured locals are not affected by heap havoc (see havocAllHeap)
 	}
 	n := vc.initialSymEpoch(comp, ep)
@@ -499,6 +499,18 @@ func namedOf(T types.Type) *types.Named {
 }
 
 // compOfStruct returns the component prefix for fields of the struct type pointed to.
+// immutableComp: the component is a struct field that a `frame T.f: none` declaration says is never assigned after
+// construction (a whole-module syntactic obligation): no call can change it, so it survives every heap havoc.
+func (vc *VC) immutableComp(comp string) bool {
+	for _, k := range vc.w.immutable() {
+		if comp == k || strings.HasPrefix(comp, k+"#") || strings.HasPrefix(comp, k+".") {
+			vc.assumptions["field "+k+" is never assigned after construction (whole-module frame obligation "+k+"#frame)"] = true
+			return true
+		}
+	}
+	return false
+}
+
 func structCompPrefix(T types.Type) string {
 	if p, ok := under(T).(*types.Pointer); ok {
 		T = p.Elem()
